@@ -60,6 +60,18 @@ def handleEvalTable : Sexp → Option Sexp
     | some env, some es =>
       some (.list ((c02RunHistT c02Tbl (c == "true") env es {}).map R.toSexp))
     | _, _ => some (Sexp.mk "bad-op" [Sexp.str "c02-evalhist args"])
+  | .list [.atom "c02-evalarray", .atom c, env, .list shape, .list es] =>
+    -- a numpy object array (shape, entries in row-major order) through the regenerated table
+    match c02EnvOfSexp? env, Expr.ofSexpL? es with
+    | some env, some es =>
+      let sh := shape.filterMap fun | .atom a => a.toNat? | _ => none
+      match c02ArrayT c02Tbl (c == "true") env ⟨sh, es⟩ with
+      | none => some (Sexp.mk "unrecognised-array-handler" [])
+      | some k =>
+        match (k {}).1 with
+        | .ok a => some (Sexp.mk "array" [.list (a.shape.map fun n => .atom (toString n)), .list (Value.toSexpL a.flat)])
+        | .error e => some (Err.toSexp e)
+    | _, _ => some (Sexp.mk "bad-op" [Sexp.str "c02-evalarray args"])
   | .list [.atom "c02-dispatch", e] =>
     match Expr.ofSexp? e with
     | some e => some (c02DispatchOf c02Tbl e)
